@@ -122,6 +122,13 @@ def run(ctx):
     binary = H.build(ctx.work, "asan")
     scns = make_scenarios(ctx, ctx.n(1500, 30000), 50)
     run_monitored(ctx, binary, scns, monitor, tag="hist")
+    # the same histories on size-optimised builds of both compilers and with plain char unsigned: behaviour must not depend
+    # on the optimisation level, the compiler or the ABI's choice for char
+    os_gcc, os_clang, uchar = H.build_many(ctx.work, [dict(flavour="plain-os"), dict(flavour="plain-clang-os"), dict(flavour="asan-uchar")])
+    third = max(1, len(scns) // 3)
+    run_monitored(ctx, os_gcc, scns[:third], monitor, tag="hist-os")
+    run_monitored(ctx, os_clang, scns[third:2 * third], monitor, tag="hist-clang-os")
+    run_monitored(ctx, uchar, scns[2 * third:], monitor, tag="hist-uchar")
     c = rep.counters
     rep.need("accepted_discovers_judged", c.get("accepted_discovers_judged", 0), 2000)
     seen = lambda sub: sum(v for k, v in c.items() if k.startswith("class:") and all(x in k for x in sub))  # noqa
